@@ -4,7 +4,7 @@ From DustDDS Require Export Base.Machine Base.Bytes Wire.WireModel Wire.WireCorr
 Open Scope Z_scope.
 
 Inductive obs : Type :=
-| OOk (peak : Z) (sent : list (list Z))   (* peak bytes requested while handling; user datagrams sent *)
+| OOk (peak maxreq : Z) (sent : list (list Z))   (* peak of live bytes and largest single request while handling; user datagrams sent *)
 | OPanic (site : Z)                        (* file * 10000 + line; 0 or file >= 7: a file outside this model *)
 | OHang
 | OOom (bytes : Z).
@@ -71,7 +71,7 @@ Fixpoint run_model (st : pstate) (ds : list (list Z)) (os : list obs) : bool :=
   | [], [] => true
   | d :: ds', o :: os' =>
       match handle_datagram st d, o with
-      | Ok (st', out), OOk _ sent =>
+      | Ok (st', out), OOk _ _ sent =>
           outs_match out sent && (datagram_steps st d <? STEPS_OK_MAX) && run_model st' ds' os'
       | Ok _, OPanic s => (s =? 0) || (7 <=? site_file s) || dgram_touches_builtin d
       | Ok _, OHang => STEPS_HANG_MIN <=? datagram_steps st d
@@ -89,10 +89,15 @@ Definition C06_model_ok (c : C06_case) : bool := run_model (c6_init c) (map X (c
 (* ------------------------------------------------------------------- oracle *)
 Definition ALLOC_C : Z := 64.
 Definition ALLOC_K : Z := 262144.
+(* one allocation request: at most 64 bytes per datagram byte + 64 KiB (the unchanged code stays
+   below 48 KiB + 1 per byte on every stream) *)
+Definition REQ_C : Z := 64.
+Definition REQ_K : Z := 65536.
 Fixpoint obs_fine (ds : list (list Z)) (os : list obs) : bool :=
   match ds, os with
   | [], [] => true
-  | d :: ds', OOk peak _ :: os' => (peak <=? ALLOC_C * len d + ALLOC_K) && obs_fine ds' os'
+  | d :: ds', OOk peak maxreq _ :: os' =>
+      (peak <=? ALLOC_C * len d + ALLOC_K) && (maxreq <=? REQ_C * len d + REQ_K) && obs_fine ds' os'
   | _, _ => false
   end.
 Definition C06_oracle_ok (c : C06_case) : bool :=
